@@ -174,6 +174,13 @@ Copy(t, t2) ==
     /\ last' = [op |-> "copy", slot |-> t, into |-> t2]
     /\ ops' = ops + 1
     /\ UNCHANGED <<store, local, adjacent, cacheOK>>
+\* tree.close() (or the end of a `with open_alos2(...)` block): the variable still holds the tree, and closing releases nothing a later
+\* load needs (every load opens its file itself) -- the state does not change at all
+Close(t) ==
+    /\ UserLoads /\ ops < MaxOps /\ tree[t].live
+    /\ last' = [op |-> "close", slot |-> t]
+    /\ ops' = ops + 1
+    /\ UNCHANGED <<store, local, adjacent, cacheOK, tree>>
 Drop(t) ==
     /\ ops < MaxOps /\ tree[t].live
     /\ tree' = [tree EXCEPT ![t] = NoTree]
@@ -253,6 +260,7 @@ Next == \/ \E l \in Locs, uc, cc \in BOOLEAN, r \in Rpcs, t \in Slots : Open(l, 
         \/ \E t \in Slots, m \in ImageSet : (\E k \in SelKinds : Load(t, m, k)) \/ Mutate(t, m)
         \/ \E t, t2 \in Slots : Copy(t, t2)
         \/ \E t \in Slots : Drop(t)
+        \/ \E t \in Slots : Close(t)
         \/ \E l \in Locs, m \in ImageSet, r \in Rpcs, tg \in {"adjacent", "cachedir"} : Cli(l, m, r, tg)
         \/ \E src, dst \in Locs : CopyTo(src, dst)
         \/ \E l \in Locs : (\E v \in Versions : Redeliver(l, v)) \/ Restore(l) \/ \E f \in Files, h \in {"missing", "cut"} : Damage(l, f, h)
